@@ -893,3 +893,116 @@ def ac6_family_consistency(model: Model, fc: FnCls, R: RuleResult) -> int:
                     R.bad(g, enclosing_stmt(c), "a call mixes structural values belonging to different user functions (%s): a count / separator / "
                           "parameter list of one function is applied to the other" % {k: v for k, v in fams.items()}, what=what)
     return n
+
+
+# ---------------------------------------------------------------------------------------------------- AC9
+def _grad_enabled_names(fn: ast.AST) -> Set[str]:
+    out = set()
+    for n in ast.walk(fn):
+        if isinstance(n, ast.Assign) and isinstance(n.value, ast.Call) and ast.unparse(n.value.func) == "torch.is_grad_enabled":
+            for t in n.targets:
+                if isinstance(t, ast.Name):
+                    out.add(t.id)
+    return out
+
+
+def _under_not_grad_enabled(node: ast.AST, fn: ast.AST, flags: Set[str]) -> bool:
+    """node lies in the branch taken when the graph is NOT being recorded"""
+    from ..model import ancestors
+    child = node
+    for a in ancestors(node):
+        if isinstance(a, ast.If):
+            t = a.test
+            neg = isinstance(t, ast.UnaryOp) and isinstance(t.op, ast.Not)
+            core = t.operand if neg else t
+            is_flag = (isinstance(core, ast.Name) and core.id in flags) or (isinstance(core, ast.Call) and ast.unparse(core.func) == "torch.is_grad_enabled")
+            if is_flag:
+                in_body = any(child is s or any(child is d for d in ast.walk(s)) for s in a.body)
+                if (neg and in_body) or (not neg and not in_body):
+                    return True
+        if a is fn:
+            break
+        child = a
+    return False
+
+
+def ac9_connected_copies(fc: FnCls, R: RuleResult) -> int:
+    """Differentiable copies made in `backward` for a pull-back must stay connected to the graph when the backward pass is itself
+    recorded: `p.clone().requires_grad_()`.  A `p.detach().requires_grad_()` copy cuts the dependence of the gradient on p (the
+    second derivative silently loses terms) and is accepted only in the branch taken when grad mode is off."""
+    bw = fc.backward
+    flags = _grad_enabled_names(bw.node)
+    n = 0
+    for c in ast.walk(bw.node):
+        if isinstance(c, ast.Call) and isinstance(c.func, ast.Attribute) and c.func.attr == "requires_grad_" and not c.args:
+            chain = []
+            e = c.func.value
+            while isinstance(e, ast.Call) and isinstance(e.func, ast.Attribute):
+                chain.append(e.func.attr)
+                e = e.func.value
+            if not chain or chain[-1] not in ("clone", "detach") and "clone" not in chain and "detach" not in chain:
+                continue        # e.g. torch.zeros(...).requires_grad_(): a fresh constant, not a copy of an input
+            n += 1
+            what = "%s = copy of `%s` via .%s().requires_grad_()" % (norm_stmt(enclosing_stmt(c), 70), ast.unparse(e), "().".join(reversed(chain)))
+            if "detach" in chain and not _under_not_grad_enabled(c, bw.node, flags):
+                R.bad(bw, enclosing_stmt(c), "a differentiable copy made for the pull-back is detached from the graph: with create_graph=True the "
+                      "gradient loses its dependence on `%s` (use .clone().requires_grad_(), or guard with `not torch.is_grad_enabled()`)" % ast.unparse(e), what=what)
+            else:
+                R.ok(bw.fq, what + (" (detached only when the graph is not recorded)" if "detach" in chain else ""))
+    return n
+
+
+MERGING_CLASSES = {"solve_torchfcn", "symeig_torchfcn", "_SolveIVP", "_Quadrature", "_MCQuad"}
+
+
+def option_hygiene(model: Model, fc: FnCls, R: RuleResult) -> int:
+    """OPT rules of rules/options.py for one Function plus: the merge exists, and the caller's bck_options dict is never mutated in
+    place nor stored itself on ctx (a shared default `{}` or a caller-owned dict would carry options into later calls)."""
+    from . import options
+    n = options.option_merge(model, fc, R)
+    fw = fc.forward
+    if "bck_options" not in fc.fixed:
+        return n
+    # _RootFinder is exempt by design: its forward options (root finder) and backward options (linear solver) are different
+    # namespaces and are not merged
+    if n == 0 and fc.name in MERGING_CLASSES:
+        R.bad(fw, fw.node, "the saved backward options are not built as set_default_option(<forward options>, bck_options)")
+        n += 1
+    sites = [(fw, "bck_options")]
+    for f, call in apply_sites(model, fc):
+        if "bck_options" in f.params() + f.kwonly() and f.module.relpath == fw.module.relpath and f.cls is None and f.parent is None:
+            sites.append((f, "bck_options"))
+    seen = set()
+    MUT = ("setdefault", "update", "pop", "popitem", "clear", "__setitem__", "__delitem__")
+    for f, pname in sites:
+        if f.fq in seen:
+            continue
+        seen.add(f.fq)
+        al = options._aliases_of_param(f.node, pname)
+        bad = None
+        for node in ast.walk(f.node):
+            if isinstance(node, ast.Call) and isinstance(node.func, ast.Attribute) and node.func.attr in MUT and isinstance(node.func.value, ast.Name) and node.func.value.id in al:
+                bad = node
+            if isinstance(node, (ast.Assign, ast.AugAssign)):
+                for t in (node.targets if isinstance(node, ast.Assign) else [node.target]):
+                    if isinstance(t, ast.Subscript) and isinstance(t.value, ast.Name) and t.value.id in al:
+                        bad = node
+            if isinstance(node, ast.Delete):
+                for t in node.targets:
+                    if isinstance(t, ast.Subscript) and isinstance(t.value, ast.Name) and t.value.id in al:
+                        bad = node
+        n += 1
+        if bad is None:
+            R.ok(f.fq, "%s never mutates the caller's bck_options in place" % f.qualname)
+        else:
+            R.bad(f, enclosing_stmt(bad) if not isinstance(bad, ast.stmt) else bad, "the caller's bck_options dictionary is mutated in place: options leak "
+                  "into later calls that share the dict (e.g. the mutable default `{}`)")
+    return n
+
+
+def hygiene_rules(model: Model, fc: FnCls, prop: str, min_copies: int = 1, min_opt: int = 2) -> List[RuleResult]:
+    R9 = RuleResult(prop, "AC9", "differentiable copies in backward stay connected to the graph (clone, not detach) when the backward is recorded", min_instances=min_copies)
+    RO = RuleResult(prop, "OPT", "backward options: set_default_option(forward options, bck_options); caller's dict never mutated", min_instances=min_opt)
+    ac9_connected_copies(fc, R9)
+    option_hygiene(model, fc, RO)
+    return [R9, RO]
